@@ -221,7 +221,10 @@ CLAIMED = {
         "(ignore_renames_all_free) - both via C02/C05; a single conflict followed through both passes of the pipeline "
         "(override_run_replaces, conflict_run_stop_ignore): under override the run exits 0, reports the rename with the "
         "override marker and the destination holds the source's identity and content while every other entry stays; "
-        "under stop it exits 1 and under ignore 0 with the tree unchanged and nothing reported. The remaining plan-level claims (ignore leaves only conflicting "
+        "under stop it exits 1 and under ignore 0 with the tree unchanged and nothing reported. The converse for stop, for any "
+        "number of files (C03Spec.lean, conflict_never_succeeds): if some file's destination exists initially and no file of "
+        "the plan moves away from it, the run under stop does not end successfully, whatever the other files, the order and "
+        "the answers (history invariant on the specification renamer of C05Report, transferred through both simulations). The remaining plan-level claims (ignore leaves only conflicting "
         "files unrenamed when the plan is NOT free, path/directory mode, override keeps the source's content in whole "
         "runs) are evaluated on instrumented real runs with all strategies and scripted answers, compared with the model.",
         "Trusted: Lean kernel; extraction by harness/extract.py; ASCII lower-casing; hand-written pipeline model tied by "
